@@ -3,9 +3,14 @@
 
    ocsp_roundtrip.ndjson  {"t":template,"sc":scenario,"kt":[issuerKeyType,responderKeyType],
                            "verdict":..,"want":Expected}      clause (1), accepted scenarios
-   ocsp_accept.ndjson     {"sc":scenario,"kt":..,"resp":abstract response,"verdict":..}
+   ocsp_accept.ndjson     {"sc":scenario,"kt":..,"api":..,"verdict":..}
                                                               clause (3), every signer x
-                                                              embedded certificate x verifier
+                                                              embedded certificate (incl. name
+                                                              collisions) x responder x verifier
+                                                              x entry point
+   ocsp_rid.ndjson        {"sc":..,"kt":..,"rid":{kind,target},"verdict":..}
+                                                              clause (3), responder ID by name /
+                                                              key hash pointing at someone else
    ocsp_fault.ndjson      {"sc":..,"kt":..,"fault":{kind,cert},"t":..,"want":..,"verdict":..}
                                                               clause (3), tampering
    ocsp_request.ndjson    {"hopt":..,"kt":..,"serial":..,"want":ExpectedRequest}   clause (2)
@@ -28,8 +33,25 @@ ASSUME ScVerdict(Direct1) = "accept" /\ ScVerdict(Delegated) = "accept"
 ASSUME \A sc \in Scenarios : (sc.verifier = "O" /\ ScVerdict(sc) = "accept") => sc.embedded \in {"Ro", "Rf"}
 ASSUME \A sc \in Scenarios : (sc.verifier = "I" /\ sc.embedded \in {"Ro", "Rf", "Rs"}) => ScVerdict(sc) # "accept"
 
+\* name collisions: a certificate that merely carries the issuer's subject (and subjectKeyId)
+\* never convinces anybody unless the issuer's key signed the response itself
+ASSUME \A sc \in Scenarios :
+         (sc.embedded \in NameCollisionIds /\ sc.signer # "KI" /\ sc.verifier = "I") => ScVerdict(sc) = "reject"
+ASSUME \A sc \in Scenarios : (sc.embedded \in NameCollisionIds /\ sc.verifier = "O") => ScVerdict(sc) = "reject"
+
+\* every scenario is run through both entry points: ParseResponse(bytes, issuer) and
+\* ParseResponseForCert(bytes, certificate with the response's serial, issuer)
 AcceptCases ==
-  SetToSeq({[sc |-> sc, kt |-> kt, verdict |-> ScVerdict(sc)] : sc \in Scenarios, kt \in KeyTypePairs})
+  SetToSeq({[sc |-> sc, kt |-> kt, api |-> api, verdict |-> ScVerdict(sc)] :
+              sc \in Scenarios, kt \in KeyTypePairs, api \in {"ParseResponse", "ParseResponseForCert"}})
+
+(* responder ID forms, on responses from the harness' own encoder (CreateResponse only writes
+   the by-name form): signer x embedded certificate x responder ID that points at the
+   issuer's / the responder's name or key hash x verifier.  Same rule, same verdict. *)
+RidCases ==
+  SetToSeq({[sc |-> sc, kt |-> kt, rid |-> [kind |-> k, target |-> t], verdict |-> RidVerdict(sc, [kind |-> k, target |-> t])] :
+              sc \in {x \in Scenarios : x.responder = "I" /\ x.embedded \in {"none", "R", "Rx", "Rs", "Rn", "Rms"}},
+              kt \in KeyTypePairs, k \in {"name", "key"}, t \in {"I", "R", "Rx"}})
 
 ----------------------------------------------------------------------------
 (* clause (1): templates *)
@@ -62,7 +84,7 @@ FaultSeq ==
   << [kind |-> "none"], [kind |-> "tbs"], [kind |-> "sig"], [kind |-> "alg"], [kind |-> "alg_params"],
      [kind |-> "status"], [kind |-> "resptype"], [kind |-> "headers"],
      [kind |-> "cert_tbs"], [kind |-> "cert_sig"], [kind |-> "cert_alg"], [kind |-> "drop"] >>
-SwapIds == <<"R2", "Ro", "Rf", "Rs", "Rx", "I">>
+SwapIds == <<"R2", "Ro", "Rf", "Rs", "Rx", "I", "Rn", "Rm", "Rnx", "Rns", "Rms">>
 
 \* the response that is tampered with is built from this template; where the verdict is
 \* "open" or "accept" an accepted response must still carry exactly these fields
@@ -122,7 +144,8 @@ ASSUME ndJsonSerialize("ocsp_accept.ndjson", AcceptCases)
 ASSUME ndJsonSerialize("ocsp_fault.ndjson", FaultCases)
 ASSUME ndJsonSerialize("ocsp_request.ndjson", RequestCases)
 ASSUME ndJsonSerialize("ocsp_forcert.ndjson", ForCertCases)
-ASSUME PrintT(<<"CASES", Len(RoundTripCases), Len(AcceptCases), Len(FaultCases), Len(RequestCases), Len(ForCertCases)>>)
+ASSUME ndJsonSerialize("ocsp_rid.ndjson", RidCases)
+ASSUME PrintT(<<"CASES", Len(RoundTripCases), Len(AcceptCases), Len(FaultCases), Len(RequestCases), Len(ForCertCases), Len(RidCases)>>)
 
 VARIABLE done
 Init == done = TRUE
